@@ -337,7 +337,8 @@ impl From<&Ipv4Packet> for Vec<u8> {
             let data = ipv4.rawdata.borrow();
             bytes.extend_from_slice(&data[ipv4.start + IPV4_HEADER_SIZE..ipv4.offset]);
         }
-        if let Some(inner) = ipv4.inner.borrow().clone() {
+        // an error object or null cached by a failed parse is not a layer
+        if let Some(inner) = ipv4.inner.borrow().clone().filter(|o| o.is_packet_layer()) {
             let data: Vec<u8> = inner.as_ref().into();
             bytes.extend_from_slice(&data);
         } else {
